@@ -24,12 +24,22 @@ def run(res, tier, br, model_ok=True, search=False):
         ("ut.h", "#ifndef UT_H\n# define UT_H\n\ntypedef struct __node\tt_node;\nstruct\t__pair\n{\n\tint\ta;\n};\ntypedef struct s_list\n{\n\tint\tBadName;\n}\tt_list;\nenum e_x\n{\n\tAA,\n\tbb\n};\n\n#endif\n"),
         ("fn.c", "int\tMyFunc(int Aa, int b_b)\n{\n\tint\tlocalVar;\n\n\tlocalVar = Aa + b_b;\n\treturn (localVar);\n}\n#define lower 1\n#define UPPER_2 2\n"),
     ]
+    bases += [
+        # names used where rules look at spellings: array sizes given by macros, struct members, labels, enum constants,
+        # function-like names, names next to keywords, typedef names used as types
+        ("arr.c", "#define BUF_XK 2048\n#define N_MAX 3\n\nint\tf(void)\n{\n\tchar\t\tbuf[BUF_XK];\n\tint\t\t\ttab[N_MAX][BUF_XK];\n\tstatic int\tcnt[N_MAX];\n\n"
+                  "\tbuf[0] = tab[0][0] + cnt[N_MAX - 1];\n\treturn (sizeof(buf) + BUF_XK);\n}\n"),
+        ("mem.c", "int\tf(t_conf *cfg, t_list **lst)\n{\n\tget_conf(cfg)->value_ = cfg->left || cfg->right;\n\tft_last(*lst)->next = cfg->item;\n"
+                  "\tcfg->cb(lst, cfg->size_);\n\treturn ((t_size)cfg->count * lst_len(*lst));\n}\n"),
+        ("use.c", "typedef int\tt_size;\n\nstatic t_size\tg_total;\nextern char\t**environ;\n\nt_size\tcount_it(t_size first_, t_size _second)\n{\n"
+                  "\tt_size\tresult_;\n\n\tresult_ = first_ * _second;\n\treturn (result_ + g_total);\n}\n"),
+    ]
     bases += families.repo_samples() if big else families.repo_samples()[::4]
     for name, src in bases:
         o0, d0, _ = meta.diags(name, src)
         if o0 not in ("ok", "fatal"):
             continue
-        for _ in range(6 if big else 3):
+        for _ in range(8 if big else 4):
             rn = meta.renaming(src, name, rng, keywords)
             if not rn:
                 break
